@@ -71,6 +71,7 @@ func c12(c *Ctx) {
 		c.dist("stage." + rc.Stage)
 		if rc.Stage != "ok" {
 			c.Rep.Notes = append(c.Rep.Notes, "file did not reach execution ("+rc.Stage+"): "+clip(rc.Detail, 300))
+			c.mismatch("build", rc.Src, rc.Stage+": "+clip(rc.Detail, 200), "accepted and executable", true)
 			continue
 		}
 		for ji, j := range rc.Jobs {
